@@ -65,6 +65,12 @@ hwloc_shmem_topology_get_length(hwloc_topology_t topology,
     return -1;
   }
 
+  /* hwloc_shmem_topology_write() refreshes the topology before duplicating it, which may drop invalid
+   * distances or memattr entries but also enlarge cpuset initiators: measure what it will actually store.
+   */
+  hwloc_internal_distances_refresh(topology);
+  hwloc_internal_memattrs_refresh(topology);
+
   tma.malloc = tma_get_length_malloc;
   tma.dontfree = 0;
   tma.data = &length;
